@@ -18,6 +18,7 @@ import (
 	evmExecutor "github.com/ChainSafe/sygma-relayer/chains/evm/executor"
 	subExecutor "github.com/ChainSafe/sygma-relayer/chains/substrate/executor"
 	"github.com/ChainSafe/sygma-relayer/relayer/transfer"
+	tssCommon "github.com/binance-chain/tss-lib/common"
 	"github.com/centrifuge/go-substrate-rpc-client/v4/rpc/author"
 	"github.com/centrifuge/go-substrate-rpc-client/v4/types"
 	ethCommon "github.com/ethereum/go-ethereum/common"
@@ -33,21 +34,36 @@ type c3TickChain struct {
 	last    int // member index of the previous lookup, -1 before the first
 	sweeps  [][]string
 	cancel  context.CancelFunc
-	spent   bool // the script is exhausted: the loop is being told to stop
+	onSpent func() // if set, called ONCE when the script is exhausted (instead of cancel)
+	spent   bool   // the script is exhausted: the loop is being told to stop
 	foreign bool // a lookup for something that is not a member
+	byPos   map[uint64]int // optional: member position by deposit nonce (default: nonce = position)
 }
 
 func (c *c3TickChain) isExecuted(p *transfer.TransferProposal) (bool, error) {
 	c.mu.Lock()
 	defer c.mu.Unlock()
 	idx := int(p.Data.DepositNonce)
+	if c.byPos != nil {
+		pos, ok := c.byPos[p.Data.DepositNonce]
+		if !ok {
+			c.foreign = true
+			return false, nil
+		}
+		idx = pos
+	}
 	if c.last >= 0 && idx <= c.last {
 		c.tick++
 	}
 	c.last = idx
 	if c.tick >= len(c.script) {
+		first := !c.spent
 		c.spent = true
-		if c.cancel != nil {
+		if c.onSpent != nil {
+			if first {
+				c.onSpent()
+			}
+		} else if c.cancel != nil {
 			c.cancel()
 		}
 		return false, nil
@@ -169,7 +185,195 @@ func init() {
 	}
 }
 
+// ---- ticks BEFORE the signature arrives, then the submission
+
+type c3SigBridge struct {
+	c *c3TickChain
+	r *c3SubmitRec
+}
+
+func (b c3SigBridge) IsProposalExecuted(p *transfer.TransferProposal) (bool, error) { return b.c.isExecuted(p) }
+func (b c3SigBridge) ProposalsHash(ps []*transfer.TransferProposal) ([]byte, error) {
+	return nil, errors.New("not reached")
+}
+func (b c3SigBridge) ExecuteProposals(ps []*transfer.TransferProposal, sig []byte, opts transactor.TransactOptions) (*ethCommon.Hash, error) {
+	return c3SubmitBridge{b.r}.ExecuteProposals(ps, sig, opts)
+}
+
+type c3SigPallet struct {
+	c *c3TickChain
+	r *c3SubmitRec
+}
+
+func (b c3SigPallet) IsProposalExecuted(p *transfer.TransferProposal) (bool, error) { return b.c.isExecuted(p) }
+func (b c3SigPallet) ProposalsHash(ps []*transfer.TransferProposal) ([]byte, error) {
+	return nil, errors.New("not reached")
+}
+func (b c3SigPallet) ExecuteProposals(ps []*transfer.TransferProposal, sig []byte) (types.Hash, *author.ExtrinsicStatusSubscription, error) {
+	return c3SubmitPallet{b.r}.ExecuteProposals(ps, sig)
+}
+func (b c3SigPallet) TrackExtrinsic(h types.Hash, sub *author.ExtrinsicStatusSubscription) error {
+	return c3SubmitPallet{b.r}.TrackExtrinsic(h, sub)
+}
+
+func init() {
+	// sigwatch <evm|sub> <gas> <nonces of the signed batch> <tick vectors '/'-separated | ->
+	//   the REAL watchExecution: the scripted ticks happen first (answers per member position, as in `watch`), and only
+	//   when the script is exhausted does the signature arrive; what is then handed to ExecuteProposals is recorded.
+	//   =>  closed@<t>|-|<inputs>              the session was closed as executed during the script, nothing submitted
+	//       submitted|<nonces>/<gas>;…|<inputs>  inputs = ok iff the caller's proposal slice is unchanged afterwards
+	ops["C03.sigwatch"] = func(a []string) string {
+		nonces := c3Nonces(a[2])
+		n := len(nonces)
+		script := items(a[3], "/")
+		ctx, cancel := context.WithTimeout(context.Background(), 15*time.Second)
+		defer cancel()
+		sigChn := make(chan interface{}, 1)
+		sig := &tssCommon.SignatureData{R: []byte{1}, S: []byte{2}, SignatureRecovery: []byte{0}}
+		ch := &c3TickChain{script: script, last: -1, byPos: map[uint64]int{}}
+		for i, x := range nonces {
+			if _, dup := ch.byPos[x]; !dup {
+				ch.byPos[x] = i
+			}
+		}
+		ch.onSpent = func() { sigChn <- sig }
+		if len(script) == 0 {
+			sigChn <- sig // no tick before the signature
+			ch.onSpent = func() {}
+		}
+		rec := &c3SubmitRec{cancel: cancel}
+		ps := c3TProps(nonces)
+		before := append([]*transfer.TransferProposal{}, ps...)
+		pst, _ := pstoremem.NewPeerstore()
+		h, cm := &c17Host{ps: pst}, &c17Comm{}
+		var err error
+		if a[0] == "evm" {
+			old := evmExecutor.VerifC03SetCheckPeriod(time.Millisecond)
+			e := evmExecutor.NewExecutor(h, cm, nil, c3SigBridge{ch, rec}, nil, &sync.RWMutex{}, 1000, 60)
+			err = e.VerifC03WatchExecution(ctx, func() {}, ps, u64(a[1]), sigChn, "m-0", "m")
+			evmExecutor.VerifC03SetCheckPeriod(old)
+		} else {
+			old := subExecutor.VerifC03SetCheckPeriod(time.Millisecond)
+			e := subExecutor.NewExecutor(h, cm, nil, c3SigPallet{ch, rec}, nil, nil, &sync.RWMutex{})
+			err = e.VerifC03WatchExecution(ctx, func() {}, ps, sigChn, "m")
+			subExecutor.VerifC03SetCheckPeriod(old)
+		}
+		inputs := "ok"
+		if len(ps) != n {
+			inputs = "changed"
+		} else {
+			for i := range ps {
+				if ps[i] != before[i] {
+					inputs = "changed"
+				}
+			}
+		}
+		ch.mu.Lock()
+		defer ch.mu.Unlock()
+		rec.mu.Lock()
+		defer rec.mu.Unlock()
+		switch {
+		case err != nil:
+			return "err|" + joinOr(rec.submitted, ";") + "|" + inputs
+		case ch.foreign:
+			return "foreign|" + joinOr(rec.submitted, ";") + "|" + inputs
+		case len(rec.submitted) > 0:
+			return "submitted|" + joinOr(rec.submitted, ";") + "|" + inputs
+		case ch.spent || len(script) == 0:
+			return "nosubmit|-|" + inputs
+		}
+		return "closed@" + itoa(ch.tick) + "|-|" + inputs
+	}
+}
+
+// c3Monotone makes a tick script realistic: a member the destination has once reported executed is never reported
+// pending again (lookup errors may still come and go).
+func c3Monotone(ticks []string) []string {
+	out := make([]string, len(ticks))
+	var seen []bool
+	for t, v := range ticks {
+		b := []byte(v)
+		if seen == nil {
+			seen = make([]bool, len(b))
+		}
+		for j := range b {
+			if j < len(seen) {
+				if seen[j] && b[j] == 'p' {
+					b[j] = 'e'
+				}
+				if b[j] == 'e' {
+					seen[j] = true
+				}
+			}
+		}
+		out[t] = string(b)
+	}
+	return out
+}
+
+func genC03SigWatch(g *G) {
+	// batches of 1..3 (quick) / 1..4 members: every single-tick vector before the signature, both executors; then
+	// random multi-tick scripts with non-consecutive nonces
+	L := g.Count(3, 4)
+	var vecs func(n int) []string
+	vecs = func(n int) []string {
+		if n == 0 {
+			return []string{""}
+		}
+		out := []string{}
+		for _, v := range vecs(n - 1) {
+			for _, c := range "pex" {
+				out = append(out, v+string(c))
+			}
+		}
+		return out
+	}
+	for n := 1; n <= L; n++ {
+		ns := []string{}
+		for i := 0; i < n; i++ {
+			ns = append(ns, itoa(10+i))
+		}
+		for _, kind := range []string{"evm", "sub"} {
+			gas := "-"
+			if kind == "evm" {
+				gas = itoa(60 * n)
+			} else {
+				gas = "0"
+			}
+			g.Emit("sigwatch", kind, gas, strings.Join(ns, ","), "-")
+			for _, v := range vecs(n) {
+				g.Emit("sigwatch", kind, gas, strings.Join(ns, ","), v)
+			}
+		}
+	}
+	for i := 0; i < g.Count(150, 4000); i++ {
+		n := 1 + g.Intn(5)
+		ns := []string{}
+		base := g.Intn(40)
+		for j := 0; j < n; j++ {
+			base += 1 + g.Intn(3)
+			ns = append(ns, itoa(base))
+		}
+		k := g.Intn(4)
+		ticks := []string{}
+		for t := 0; t < k; t++ {
+			var sb strings.Builder
+			for j := 0; j < n; j++ {
+				sb.WriteByte("ppeex"[g.Intn(5)])
+			}
+			ticks = append(ticks, sb.String())
+		}
+		kind := g.Pick([]string{"evm", "sub"})
+		gas := "0"
+		if kind == "evm" {
+			gas = utoa([]uint64{60, 180, 1 << 40, 1<<64 - 1}[g.Intn(4)])
+		}
+		g.Emit("sigwatch", kind, gas, strings.Join(ns, ","), joinOr(c3Monotone(ticks), "/"))
+	}
+}
+
 func genC03Watch(g *G) {
+	genC03SigWatch(g)
 	// every answer vector for batches of 1..L members
 	L := g.Count(4, 6)
 	var rec func(prefix string)
@@ -207,7 +411,9 @@ func genC03Watch(g *G) {
 				g.Emit("watch", kind, itoa(n), v1)
 				if kind == "sub" || n == 1 {
 					for _, v2 := range vecs(n) {
-						g.Emit("watch", kind, itoa(n), v1+"/"+v2)
+						if m := c3Monotone([]string{v1, v2}); m[1] == v2 {
+							g.Emit("watch", kind, itoa(n), v1+"/"+v2)
+						}
 					}
 				}
 			}
@@ -232,6 +438,6 @@ func genC03Watch(g *G) {
 			}
 			ticks = append(ticks, sb.String())
 		}
-		g.Emit("watch", g.Pick([]string{"evm", "sub"}), itoa(n), strings.Join(ticks, "/"))
+		g.Emit("watch", g.Pick([]string{"evm", "sub"}), itoa(n), strings.Join(c3Monotone(ticks), "/"))
 	}
 }
